@@ -32,10 +32,10 @@ def mutants(which):
         for d in sorted(glob.glob('/tmp/seed/*/out/m*/patch.diff')):
             parts = d.split('/')
             ms.append(('tmp/%s-%s' % (parts[3], parts[5]), d, False))
-    if 'seed2' in which:
-        for d in sorted(glob.glob('/tmp/seed2/*/out/[mr]*/patch.diff')):
+    if 'seed3' in which:
+        for d in sorted(glob.glob('/tmp/seed3/*/out/[mr]*/patch.diff')):
             parts = d.split('/')
-            ms.append(('seed2/%s-%s' % (parts[3], parts[5]), d, False))
+            ms.append(('seed3/%s-%s' % (parts[3], parts[5]), d, False))
     if 'unfix' in which:
         for h, s in fix_commits():
             ms.append(('unfix/%s %s' % (h, s[:60]), h, True))
